@@ -173,7 +173,10 @@ pub fn gen_csr(seed: u64, n: usize, out: &mut Out) {
             // from_sorted_edges
             let nn = 1 + r.below(6);
             let mut es: Vec<(i64, i64)> = Vec::new();
-            for a in 0..nn { for b in 0..nn { if r.chance(35) { es.push((a as i64, b as i64)); } } }
+            // half of the lists are sparse, with targets beyond the largest source: the node count is the largest id anywhere
+            // in the list, not the one on the last edge
+            let (dens, extra) = if r.chance(50) { (35, 0) } else { (8 + r.below(10), r.below(4)) };
+            for a in 0..nn { for b in 0..nn + extra { if r.chance(dens as u64) { es.push((a as i64, b as i64)); } } }
             let mutated = r.chance(40) && es.len() >= 2;
             if mutated {
                 match r.below(3) {
